@@ -62,6 +62,11 @@ func init() {
 		}
 		return map[string]any{"out": out}
 	})
+	gen.RegisterOp("c15", "bigframe", func(c *gen.Ctx, raw json.RawMessage) any {
+		in := gen.Into[c15In](raw)
+		in.Compact = true
+		return c15Conn(&in)
+	})
 	gen.RegisterOp("c15", "live", func(c *gen.Ctx, raw json.RawMessage) any {
 		in := gen.Into[c15LiveIn](raw)
 		return c15Live(&in)
@@ -192,6 +197,7 @@ type c15Frame struct {
 	Kind string      `json:"kind,omitempty"` // for O: settings | ack | ping | window | priority | unknown
 	S    [][2]uint32 `json:"s,omitempty"`    // for O/settings: the (id, value) pairs of the SETTINGS frame (default: MAX_FRAME_SIZE, INITIAL_WINDOW_SIZE)
 	TS   []c15TS     `json:"ts,omitempty"`   // for H: operations on this direction's hpack.Encoder before the block is encoded
+	Fill int         `json:"fill,omitempty"` // for O/unknown: Fill filler bytes (c15Filler) behind X — payloads too large to write down
 }
 
 // c15TS is one operation on a direction's hpack.Encoder: "l" SetMaxDynamicTableSizeLimit(v)
@@ -223,6 +229,9 @@ type c15In struct {
 	// WHOLE array: the bytes of this call where the inner connection put them, the canary everywhere
 	// else (in front of the slice, beyond n, in the capacity region).
 	Reuse int `json:"reuse,omitempty"`
+	// Compact (op bigframe): the bytes and the decode units are not reported (frames of up to
+	// 2^24-1 bytes), only their number per direction
+	Compact bool `json:"compact,omitempty"`
 }
 
 type c15Unit struct {
@@ -258,6 +267,8 @@ type c15Out struct {
 	// Slow: three attempts in a row the calls of the script took so long that the retry timer of the
 	// code under test (3 s) may have fired outside a "t" call: the observation is not judged
 	Slow bool `json:"slow,omitempty"`
+	// NUnits (op bigframe): number of decode units per direction instead of Units
+	NUnits map[string]int `json:"nunits,omitempty"`
 }
 
 type c15RetryIn struct {
@@ -372,7 +383,7 @@ func c15Build(frames []c15Frame) (q, p []byte, lens []int) {
 			case "priority":
 				s.fr.WritePriority(f.ID|1, http2.PriorityParam{StreamDep: 0, Weight: 3})
 			default:
-				s.fr.WriteRawFrame(http2.FrameType(0xfa), 0, f.ID, c15Unhex(f.X))
+				s.fr.WriteRawFrame(http2.FrameType(0xfa), 0, f.ID, append(c15Unhex(f.X), c15Filler(f.Fill)...))
 			}
 		case "X":
 			s.buf.Write(c15Unhex(f.X))
@@ -663,8 +674,13 @@ func c15ConnOnce(in *c15In) (c15Out, time.Duration) {
 	t0 := time.Now()
 	var slept time.Duration
 	q, p, lens := c15Bytes(in)
-	out := c15Out{Q: gen.Hex(q), P: gen.Hex(p), Lens: lens, Transparent: true,
-		Units: map[string][]c15Unit{"q": c15Units(q, true), "p": c15Units(p, false)}}
+	var out c15Out
+	if in.Compact {
+		out = c15Out{Lens: lens, Transparent: true, NUnits: map[string]int{"q": len(c15Units(q, true)), "p": len(c15Units(p, false))}}
+	} else {
+		out = c15Out{Q: gen.Hex(q), P: gen.Hex(p), Lens: lens, Transparent: true,
+			Units: map[string][]c15Unit{"q": c15Units(q, true), "p": c15Units(p, false)}}
+	}
 	rbytes, wbytes := p, q
 	if in.Server {
 		rbytes, wbytes = q, p
@@ -861,8 +877,10 @@ func c15NotCanary(b []byte, canary byte) int {
 // ---------------------------------------------------------------- generator
 
 func c15H(d string, f [][2]string, es bool) c15Frame { return c15Frame{D: d, T: "H", F: f, ES: es} }
-func c15D(d string, data []byte, es bool) c15Frame  { return c15Frame{D: d, T: "D", X: gen.Hex(data), ES: es} }
-func c15R(d string, code uint32) c15Frame            { return c15Frame{D: d, T: "R", Code: code} }
+func c15D(d string, data []byte, es bool) c15Frame {
+	return c15Frame{D: d, T: "D", X: gen.Hex(data), ES: es}
+}
+func c15R(d string, code uint32) c15Frame { return c15Frame{D: d, T: "R", Code: code} }
 
 func c15ReqFields(name, ct, path string, extra ...[2]string) [][2]string {
 	f := [][2]string{{":method", "POST"}, {":scheme", "http"}, {":path", path}, {":authority", "h.example:80"}}
@@ -1239,7 +1257,7 @@ func (g *c15Gen) variants(frames []c15Frame, legal bool, tail [][]any, class str
 		calls := c15Calls(server, runs, gen.Pick(g.r, parts[:3]))
 		if k := c15LastOf(calls, "r"); k >= 0 {
 			ended := c15WithResult(calls, k, gen.Pick(g.r, []string{"eof", "eof", "fail"}), "EL", -1)
-			g.emit(c15In{Server: server, Legal: legal, Frames: frames, Calls: ended[:k+1:k+1], Note: class + "+err"}, class+"+err")
+			g.emit(c15In{Server: server, Legal: legal, Frames: frames, Calls: ended[: k+1 : k+1], Note: class + "+err"}, class+"+err")
 		}
 		calls = c15Calls(server, runs, gen.Pick(g.r, parts[:3]))
 		if len(calls) > 0 {
@@ -1302,7 +1320,7 @@ func (g *c15Gen) errData(frames []c15Frame, note string, parts []func(int, int) 
 							continue // the plain call
 						}
 						mod := c15WithResult(calls, k, kind, "EK", wn)
-						g.emit(c15In{Server: server, Legal: true, Frames: frames, Calls: mod[:k+1:k+1], Note: note}, note)
+						g.emit(c15In{Server: server, Legal: true, Frames: frames, Calls: mod[: k+1 : k+1], Note: note}, note)
 						g.emit(c15In{Server: server, Legal: true, Frames: frames, Calls: append(mod, c15Close...), Note: note}, note)
 					}
 				}
@@ -1444,6 +1462,9 @@ func runC15(c *gen.Ctx) error {
 			}
 		}
 	}
+
+	// ---- G2c: frames longer than the default SETTINGS_MAX_FRAME_SIZE (16384 .. 2^24-1)
+	g.bigFrames()
 
 	// ---- G2b: random concurrent exchanges
 	nRand := 500
@@ -1992,12 +2013,12 @@ func (g *c15Gen) fuzz(i int) {
 			{D: "q", T: "H", ID: 3, F: [][2]string{{"x-a", "b"}, {":method", "GET"}}},
 			{D: "q", T: "H", ID: 3, F: [][2]string{{"X-Upper", "b"}}},
 			{D: "p", T: "H", ID: 1, F: [][2]string{{":status", "200"}, {":path", "/"}}},
-			{D: "p", T: "X", X: "000004030000000001" + "0000"},                  // RST_STREAM with a short payload
-			{D: "q", T: "X", X: "000001090400000001" + "82"},                    // CONTINUATION out of the blue
+			{D: "p", T: "X", X: "000004030000000001" + "0000"},                      // RST_STREAM with a short payload
+			{D: "q", T: "X", X: "000001090400000001" + "82"},                        // CONTINUATION out of the blue
 			{D: "q", T: "X", X: "000001010000000003" + "82" + "000000000100000003"}, // HEADERS without END_HEADERS then DATA
-			{D: "p", T: "X", X: "000001010400000001" + "ff"},                    // bad hpack
-			{D: "p", T: "X", X: "000000090000000001"},                           // CONTINUATION without END_HEADERS, never ended
-			{D: "q", T: "X", X: "0000000800000000"},                             // short header only
+			{D: "p", T: "X", X: "000001010400000001" + "ff"},                        // bad hpack
+			{D: "p", T: "X", X: "000000090000000001"},                               // CONTINUATION without END_HEADERS, never ended
+			{D: "q", T: "X", X: "0000000800000000"},                                 // short header only
 		}
 		pos := r.Intn(len(frames) + 1)
 		frames = append(frames[:pos:pos], append([]c15Frame{gen.Pick(r, bad)}, frames[pos:]...)...)
@@ -2083,6 +2104,21 @@ func runC15Facts(c *gen.Ctx) error {
 	fmt.Fprintf(&b, "def frameHeaderLen : Nat := %d\n", hl)
 	fmt.Fprintf(&b, "def retryWaitMs : Nat := %d\n", rw)
 	fmt.Fprintf(&b, "def traceTimeoutMs : Nat := %d\n", tt)
+	// the counters of http2FrameTracer at their Go widths (reflection over the compiled types)
+	kinds, maxWire := tracer.VerifC15Widths()
+	bits := map[string][2]string{
+		"uint8": {"8", "false"}, "uint16": {"16", "false"}, "uint32": {"32", "false"}, "uint64": {"64", "false"}, "uint": {"64", "false"}, "uintptr": {"64", "false"},
+		"int8": {"8", "true"}, "int16": {"16", "true"}, "int32": {"32", "true"}, "int64": {"64", "true"}, "int": {"64", "true"},
+	}
+	b.WriteString("\n")
+	for _, f := range []string{"ftExpecting", "ftActual", "frameLength"} {
+		bs, ok := bits[kinds[f]]
+		if !ok {
+			bs = [2]string{"0", "false"} // missing field / not an integer: contradicts the theorem
+		}
+		fmt.Fprintf(&b, "/-- Go kind: %s -/\ndef %sBits : Nat := %s\ndef %sSigned : Bool := %s\n", kinds[f], f, bs[0], f, bs[1])
+	}
+	fmt.Fprintf(&b, "/-- http2.ReadFrameHeader on length bytes ff ff ff -/\ndef maxWireFrameLen : Nat := %d\n", maxWire)
 	b.WriteString("\nend ConfModel.Generated.C15Facts\n")
 	// --out is handled by main (stdout of this area is the emitter); write through the emitter's file
 	return c15WriteFacts(c, b.String())
